@@ -9,7 +9,8 @@ def profile? : String → Option Profile
   | _ => none
 
 /-- mode `model`: PROFILE TAB case ↦ observation of the model;
-    mode `oracle`: PROFILE TAB case TAB observation ↦ verdict of the C04 reference checker. -/
+    mode `oracle`: PROFILE TAB case TAB observation ↦ verdict of the C04 reference checker;
+    mode `quant`: PROFILE TAB case ↦ whether the case is in the quantifier (`buildable`) and `encodable`. -/
 def handler (mode : String) (line : String) : String :=
   match mode with
   | "model" =>
@@ -45,6 +46,17 @@ def handler (mode : String) (line : String) : String :=
                           | v => Spec.verdictStr i v
                       | none => "fail clause=unparsable-observation"
                   | none => "fail clause=unparsable-observation"
+              | none => "(bad-case)"
+          | none => "(bad-line)"
+      | _ => "(bad-line)"
+  | "quant" =>
+      -- statistics for the generator: is the case inside the property's quantifier, and is it encodable?
+      match line.splitOn "\t" with
+      | [ps, cs] =>
+          match profile? ps with
+          | some p =>
+              match (parse cs).bind (case? p) with
+              | some i => s!"kind={Spec.kindName i.msg}{Spec.famName i.msg} buildable={Spec.buildable i} encodable={Spec.encodable i}"
               | none => "(bad-case)"
           | none => "(bad-line)"
       | _ => "(bad-line)"
